@@ -135,6 +135,9 @@ func process(run *ev.Run, w *worker, it item) {
 	run.Count("generic.accepted", a1+a2)
 	run.Count("generic.rejected", r1+r2)
 	run.Count("inputs."+it.class, 1)
+	if n := atomic.AddInt64(&sampleTick, 1); n%20011 == 1 {
+		run.Sample(map[string]any{"input_class": it.class, "input": trunc(it.text), "formats": it.only, "program_runs_accepting": a1 + a2, "program_runs_rejecting": r1 + r2, "panics": len(f1) + len(f2), "generated_decoders_run": len(it.typed)})
+	}
 	if a1 != a2 || r1 != r2 {
 		run.Count("observed_only.generations_disagree_on_acceptance", 1)
 	}
@@ -158,6 +161,8 @@ func process(run *ev.Run, w *worker, it item) {
 		}
 	}
 }
+
+var sampleTick int64
 
 type selfRef struct {
 	Next *selfRef
